@@ -33,9 +33,40 @@ type truth struct {
 	sets    [][]ValP // sets[i] = validators of height h0+i
 	r       *hlib.Rand
 	big     bool
+	times   map[int64]int64 // block time per height, assigned when a height is first used
 }
 
-func (t *truth) time(h int64) int64 { return t.t0 + (h-t.h0)*5*sec }
+// time of block h.  Blocks are "produced" as the clock advances: a height above every known one gets a time shortly
+// before the current clock (but after its predecessors), a height between known ones is interpolated, so times
+// increase with heights and fresh headers keep the client alive.
+func (t *truth) time(h int64, now int64) int64 {
+	if v, ok := t.times[h]; ok {
+		return v
+	}
+	if h < t.h0 {
+		return t.t0 - (t.h0-h)*5*sec
+	}
+	lo, hi := t.h0, int64(-1)
+	for k := range t.times {
+		if k < h && k > lo {
+			lo = k
+		}
+		if k > h && (hi < 0 || k < hi) {
+			hi = k
+		}
+	}
+	var v int64
+	if hi < 0 {
+		v = now - sec
+		if m := t.times[lo] + (h-lo)*1000; v < m {
+			v = m
+		}
+	} else {
+		v = t.times[lo] + (t.times[hi]-t.times[lo])/(hi-lo)*(h-lo)
+	}
+	t.times[h] = v
+	return v
+}
 
 func (t *truth) power(r *hlib.Rand) int64 {
 	p := int64(1 + r.Intn(4))
@@ -56,8 +87,8 @@ func (t *truth) vals(h int64) []ValP {
 		prev := t.sets[len(t.sets)-1]
 		r := t.r.Fork(uint64(len(t.sets)))
 		next := append([]ValP(nil), prev...)
-		if r.Chance(35, 100) {
-			switch r.Intn(5) {
+		if r.Chance(18, 100) {
+			switch []int{0, 0, 0, 1, 1, 2, 3, 4}[r.Intn(8)] {
 			case 0: // change one power
 				i := r.Intn(len(next))
 				next[i].Power = t.power(r)
@@ -168,6 +199,7 @@ func genHistory(e *env, r *hlib.Rand, id, maxSteps int) Result {
 		first = append(first, ValP{Key: k, Power: t.power(r)})
 	}
 	t.sets = [][]ValP{first}
+	t.times = map[int64]int64{t.h0: t.t0}
 
 	lv := levels[r.Intn(len(levels))]
 	if r.Chance(1, 20) {
@@ -175,7 +207,7 @@ func genHistory(e *env, r *hlib.Rand, id, maxSteps int) Result {
 	}
 	trusting := []int64{300, 600, 2000}[r.Intn(3)] * sec
 	drift := []int64{10 * sec, 10 * sec, sec, 1}[r.Intn(4)]
-	createNow := t.time(t.h0) + 10*sec
+	createNow := t.t0 + 10*sec
 	delay := []uint64{0, 0, uint64(10 * sec), uint64(60 * sec)}[r.Intn(4)]
 	overflow := r.Chance(1, 14)
 	if overflow {
@@ -188,7 +220,7 @@ func genHistory(e *env, r *hlib.Rand, id, maxSteps int) Result {
 	}
 	spec := Spec{ID: id, Client: ClientSpec{ChainID: t.chainID, TLNum: lv.num, TLDen: lv.den, Trusting: trusting,
 		Unbonding: trusting * 2, Drift: drift, Latest: HeightJ{t.rev, uint64(t.h0)}, Delay: delay,
-		ConsTime: t.time(t.h0), ConsRoot: hx(root), ConsNVH: hx(hashOf(t.vals(t.h0 + 1))), CreateNow: createNow}}
+		ConsTime: t.t0, ConsRoot: hx(root), ConsNVH: hx(hashOf(t.vals(t.h0 + 1))), CreateNow: createNow}}
 	run := e.start(spec)
 	now := createNow
 	nsteps := 3 + r.Intn(maxSteps)
@@ -227,7 +259,7 @@ func genUpdate(run *run, r *hlib.Rand, t *truth, now int64, late bool) int64 {
 
 	// target height
 	var H int64
-	switch pick(r, 30, 32, 22, 6, 4) {
+	switch pick(r, 24, 34, 30, 7, 5) {
 	case 0:
 		H = latest + 1
 		desc = append(desc, "fwd-adjacent")
@@ -298,7 +330,7 @@ func genUpdate(run *run, r *hlib.Rand, t *truth, now int64, late bool) int64 {
 
 	vals := t.vals(H)
 	tvals := t.vals(tH + 1)
-	p := defaultHP(t.chainID, H, t.time(H), vals)
+	p := defaultHP(t.chainID, H, t.time(H, now), vals)
 	p.NextValsHash = hashOf(t.vals(H + 1))
 	p.AppHash = run.e.fx.root
 	if r.Chance(1, 10) {
@@ -307,25 +339,23 @@ func genUpdate(run *run, r *hlib.Rand, t *truth, now int64, late bool) int64 {
 	p.TrustedHeight = th
 	p.TrustedVals = tvals
 
-	// clock: normally late enough for the header time, sometimes exactly on the drift boundary
-	need := p.Time - cs.MaxClockDrift.Nanoseconds() + 1 // smallest clock for which the header is not "from the future"
-	switch {
-	case need-1 >= now && r.Chance(1, 5):
-		now = need - 1 + int64(r.Intn(3)) - 1
+	// header times lie shortly before the clock; sometimes a header comes "from the future", exactly around now + drift
+	if H > latest && r.Chance(1, 12) {
+		p.Time = now + cs.MaxClockDrift.Nanoseconds() - 1 + int64(r.Intn(3))
+		t.times[H] = p.Time
 		desc = append(desc, "clock-drift-boundary")
-	case need > now && r.Chance(9, 10):
-		now = need + int64(r.Intn(int(3*sec)))
 	}
 	// ... or on the expiry boundary of the trusted consensus state
 	for _, s := range st {
 		if s.h.EQ(th) {
 			exp := s.time + cs.TrustingPeriod.Nanoseconds()
-			if exp-1 >= now && (late || s.h.LT(cs.LatestHeight)) && r.Chance(1, 8) {
+			// only in the last steps: a clock at the expiry boundary leaves the rest of the history with a dead client
+			if exp-1 >= now && late && r.Chance(1, 3) {
 				now = exp - 2 + int64(r.Intn(3))
 				desc = append(desc, "clock-expiry-boundary")
-				// a header from the far future of the trusted state: keep its own time plausible
-				if p.Time >= now+cs.MaxClockDrift.Nanoseconds() {
+				if H > latest {
 					p.Time = now - sec
+					t.times[H] = p.Time
 				}
 			}
 		}
@@ -333,8 +363,9 @@ func genUpdate(run *run, r *hlib.Rand, t *truth, now int64, late bool) int64 {
 	if late && r.Chance(1, 6) {
 		now += cs.TrustingPeriod.Nanoseconds() * int64(1+r.Intn(2))
 		desc = append(desc, "clock-far-future")
-		if r.Chance(2, 3) {
+		if H > latest && r.Chance(2, 3) {
 			p.Time = now - sec
+			t.times[H] = p.Time
 		}
 	}
 
@@ -381,7 +412,7 @@ func genUpdate(run *run, r *hlib.Rand, t *truth, now int64, late bool) int64 {
 	}
 	mask := 1<<uint(len(vals)) - 1
 	sdesc := "signers-all"
-	switch pick(r, 30, 18, 14, 10, 10, 10, 4) {
+	switch pick(r, 34, 22, 10, 8, 12, 6, 2) {
 	case 1: // smallest subsets above 2/3
 		best := int64(-1)
 		for _, c := range cands {
